@@ -187,7 +187,15 @@ pub fn gen(seed: u64, n: usize, out: &mut Out) {
                        out.end_case(); }}; } ty!(go) }
             3 => {
                 if a.directed {
-                    let g = build_matrix::<Directed, u16>(&a, &mut r);
+                    let mut g = build_matrix::<Directed, u16>(&a, &mut r);
+                    if r.chance(12) {
+                        // an edge towards a removed id: update_edge is documented to panic, it does not (known finding)
+                        let live: Vec<usize> = g.node_identifiers().map(|x| x.index()).collect();
+                        if let (Some(&l), Some(dead)) = (live.first(), (0..NodeIndexable::node_bound(&g)).find(|i| !live.contains(i))) {
+                            let _ = catch_unwind(AssertUnwindSafe(|| g.update_edge(petgraph::matrix_graph::NodeIndex::new(l), petgraph::matrix_graph::NodeIndex::new(dead), 5)));
+                            out.stat("matrix_edge_to_removed_id");
+                        }
+                    }
                     let eid = |e: (petgraph::matrix_graph::NodeIndex<u16>, petgraph::matrix_graph::NodeIndex<u16>)| e.0.index() * 100 + e.1.index();
                     let (h, l) = dumpfv!(&g, eid, incoming: yes, adj: yes, ncount: yes, ecount: yes, ebound: no, compact: no, ids: yes);
                     emit_base(out, id, 3, &h, &l);
